@@ -580,9 +580,11 @@ def gen_simple_world(rng):
         metrics.append([{"$tuple": ["Z"]}, ["dz_c", "dz_o"]])
     for vn, vv in vars_.items():
         vv["attrs"] = {"units": "m", "long_name": vn}
+    # (attribute values as written by other tools: the COMODO shift as a float or as its decimal string)
+    shift = rng.choice([-0.5, -0.5, "-0.5"])
     gspec = {"axes": axes, "extra": extra, "vars": vars_,
              "dim_attrs": {d: ({"axis": a, "standard_name": d} if p == "center" else
-                               {"axis": a, "standard_name": d, "c_grid_axis_shift": -0.5})
+                               {"axis": a, "standard_name": d, "c_grid_axis_shift": shift})
                            for a, ax in axes.items() for p, d in ax["pos"].items()},
              "ds_attrs": {"title": "xsim world", "history": "built"}}
     axn = list(axes)
